@@ -1,7 +1,7 @@
 (* Proofs/ChainP.v — lemmas about Model/Chain.v, part 1: dictionaries, sets, and the ChainFinder invariant
    preserved by meld_new_hashes / load_nodes for every pop order (priority list). *)
 From Coq Require Import List NArith ZArith Bool Lia Arith.
-From PV Require Import Base.Outcome Model.Chain.
+From PV Require Import Base.Outcome Model.Chain Spec.ChainSpec.
 Import ListNotations.
 Local Open Scope N_scope.
 
@@ -139,8 +139,6 @@ Proof.
   right. apply IH. discriminate.
 Qed.
 
-(* [inset d t b]: b is a member of the set stored under key t *)
-Definition inset (d : dict (list hash)) (t b : hash) : Prop := exists s, dget t d = Some s /\ In b s.
 Lemma inset_dset d t s t' b :
   inset (dset t s d) t' b <-> (t' = t /\ In b s) \/ (t' <> t /\ inset d t' b).
 Proof.
